@@ -2,7 +2,7 @@
    Model: Model/Afssh.v (one nuclear dimension at a time; eigh(W) is an oracle whose answer
    enters as data — Hermiticity needs NO property of it); proofs: Proof/AfsshP.v. *)
 From Coq Require Import Reals List Lra.
-From MV Require Import Ops RInst Vec Cplx Mat CRing MatP Propagate PropagateP Rk4P Afssh AfsshP CollapseP Traj TrajP.
+From MV Require Import Ops RInst Vec Cplx Mat CRing MatP Propagate PropagateP Rk4P Afssh AfsshP CollapseP Traj TrajP TrajAP.
 Import ListNotations.
 Open Scope R_scope.
 
